@@ -232,7 +232,8 @@ def run(tier, seed):
                     'trace validation: the chain evolution is observed by wrapping the limit state and the sampler class from outside and '
                     'replayed through the model on an order- and sign-preserving integer image of the limit-state values',
                     'the last sentence of the property (statistical error band) is a distributional claim: labelled statistical test in '
-                    'the thorough tier only', 'pf clause decided for runs that reach the zero level (else pf = p0^maxSubsets)']
+                    'the thorough tier only', 'pf clause decided for runs that reach the zero level (else pf = p0^maxSubsets)',
+                    'the returned pf is compared with Subset.pf of the model run (product of the stored level probabilities, p0 as the exact binary fraction) at 1e-12; the chain contract used by the nestedness theorem is derived from the sampler model of C14 (chain_contract)']
     return core.finish(res)
 
 
